@@ -63,6 +63,19 @@ Definition corr_odcase (c : odcase) : bool :=
 
 Definition judge_directive (c : odcase) : N := code_of (corr_odcase c) (prop_odcase c).
 
+(* tape names under an output charset: the bytes-level part of add_emitted_bk_wav (length check,
+   truncation, padding) on the encoded name; an unencodable name is recorded as 16 spaces *)
+Definition corr_otcase (c : otcase) : bool :=
+  match ot_enc c with
+  | Some enc => let (padded, err) := pad_name enc in
+                opt_eqb zlist_eqb (Some padded) (ot_obs_name c) && Bool.eqb err (ot_obs_long c)
+                && negb (ot_obs_char c) && Bool.eqb (ot_obs_failed c) err
+  | None => opt_eqb zlist_eqb (Some (fst (pad_name []))) (ot_obs_name c) && negb (ot_obs_long c)
+            && ot_obs_char c && ot_obs_failed c
+  end.
+
+Definition judge_tape (c : otcase) : N := code_of (corr_otcase c) (prop_otcase c).
+
 (* ------------------------------------------------------------------ command-line cases *)
 Fixpoint assoc_str {A} (k : str) (m : list (str * A)) : option A :=
   match m with
@@ -119,6 +132,7 @@ Inductive anycase :=
 | CHash (c : ocase) (h : Z * Z * Z * Z)
 | CResolve (c : string * string * string * string * string)
 | CDirective (c : odcase)
+| CTape (c : otcase)
 | CCli (c : ocli).
 
 Definition judge (c : anycase) : N :=
@@ -127,5 +141,6 @@ Definition judge (c : anycase) : N :=
   | CHash c h => judge_hash (c, h)
   | CResolve c => judge_resolve c
   | CDirective c => judge_directive c
+  | CTape c => judge_tape c
   | CCli c => judge_cli c
   end.
